@@ -1414,6 +1414,37 @@ fn run_case(bin: &str, seed: u64, n: u64, max_notes: u64) -> CaseOut {
     if TRANSPORT_ERRORS.load(std::sync::atomic::Ordering::SeqCst) >= MAX_TRANSPORT_ERRORS {
         return CaseOut { lines: Vec::new(), stats: vec!["cases-skipped-after-transport-errors:1".into()], error: None };
     }
+    // A session whose server stays SILENT for REQUEST_TIMEOUT_S is run once more from scratch (the
+    // input is deterministic): a silence that does not reproduce is recorded (stat
+    // `sessions-retried-after-timeout`, line `# note retried-after-timeout`) and bounded by the
+    // check, not judged; a silence that reproduces, and any DEAD server (crash, first time), is a
+    // failing input.
+    let mut first_timeout: Option<String> = None;
+    loop {
+        let mut out = attempt_case(bin, seed, n, max_notes);
+        match (&out.error, &first_timeout) {
+            (Some(e), None) if e.contains("timed out") => {
+                first_timeout = Some(e.clone());
+                continue;
+            }
+            _ => {}
+        }
+        if let Some(e) = &first_timeout {
+            out.stats.push("sessions-retried-after-timeout:1".into());
+            let at = out.lines.len().saturating_sub(1);
+            out.lines.insert(at, format!("# note retried-after-timeout {}", hex(e.as_bytes())));
+        }
+        if let Some(e) = &out.error {
+            TRANSPORT_ERRORS.fetch_add(1, std::sync::atomic::Ordering::SeqCst);
+            // a dead or silent server is an observable of the implementation
+            let at = out.lines.len().saturating_sub(1);
+            out.lines.insert(at, format!("# oracle session FAIL {}", hex(e.as_bytes())));
+        }
+        return out;
+    }
+}
+
+fn attempt_case(bin: &str, seed: u64, n: u64, max_notes: u64) -> CaseOut {
     let (plan, mut r) = plan_case(seed, n, max_notes);
     let mut lines = vec![format!("case {n}")];
     let mut stats: Vec<String> = plan.tags.iter().map(|t| format!("{t}:1")).collect();
@@ -1432,11 +1463,6 @@ fn run_case(bin: &str, seed: u64, n: u64, max_notes: u64) -> CaseOut {
         let _ = std::fs::remove_dir_all(root);
     }
     let error = res.err();
-    if let Some(e) = &error {
-        TRANSPORT_ERRORS.fetch_add(1, std::sync::atomic::Ordering::SeqCst);
-        // a dead or silent server is an observable of the implementation
-        lines.push(format!("# oracle session FAIL {}", hex(e.as_bytes())));
-    }
     lines.push("end".into());
     CaseOut { lines, stats, error }
 }
